@@ -63,6 +63,7 @@ type Exec struct {
 	edges  map[*ssa.BasicBlock][]edgeIn
 	deferList []*ssa.Defer
 	discovery int // >0 while in loop-discovery mode
+	structFieldOf map[ssa.Value]*LValue // address of a struct-valued field -> its outer struct/field/object
 	flagAlias map[ssa.Value]bool // results of inlined helpers that return a flag-channel field
 	lastInlineFlag bool
 	runningDefer bool // executing a deferred call (its function value was checked at the defer statement)
@@ -904,6 +905,10 @@ func (x *Exec) instr(st *State, in ssa.Instruction) {
 		base := x.value(t.X)
 		if _, isStruct := ft.Underlying().(*types.Struct); isStruct {
 			x.vals[t] = vc.subRef(pt, t.Field, base)
+			if x.structFieldOf == nil {
+				x.structFieldOf = map[ssa.Value]*LValue{}
+			}
+			x.structFieldOf[t] = &LValue{ost: pt, ofield: t.Field, obase: base}
 			return
 		}
 		x.addrs[t] = &LValue{kind: "field", base: base, st: pt, field: t.Field, typ: ft}
@@ -1146,7 +1151,11 @@ func (x *Exec) lvalueOf(st *State, in ssa.Instruction, p ssa.Value) *LValue {
 	ref := x.value(p)
 	switch et.Underlying().(type) {
 	case *types.Struct:
-		return &LValue{kind: "structref", base: ref, typ: et}
+		lv := &LValue{kind: "structref", base: ref, typ: et}
+		if o := x.structFieldOf[p]; o != nil {
+			lv.ost, lv.ofield, lv.obase = o.ost, o.ofield, o.obase
+		}
+		return lv
 	case *types.Array:
 		return nil
 	}
